@@ -339,8 +339,8 @@ def classify_py(line: str, depth: int) -> typing.Tuple[str, str]:
 # ------------------------------------------------------------------------------------------------
 
 class Parser:
-    def __init__(self, toks, lang: str, where: str):
-        self.toks, self.pos, self.lang, self.where = toks, 0, lang, where
+    def __init__(self, toks, lang: str, where: str, raw: bool = False):
+        self.toks, self.pos, self.lang, self.where, self.raw = toks, 0, lang, where, raw
         self.tmp: typing.Dict[str, str] = {}
 
     def fail(self, msg: str):
@@ -354,6 +354,21 @@ class Parser:
     def text_nodes(self, text: str, pending: typing.List[str]) -> typing.List[tuple]:
         """split raw text into classified statements; `pending` carries an unterminated statement across calls"""
         out = []
+        if self.raw:
+            # declaration templates: every emitted line verbatim (comments / whitespace normalised), no statement classification
+            for raw in text.split('\n'):
+                line = raw
+                if self.lang == 'py':
+                    line = '' if raw.lstrip().startswith('#') else _strip_line_comment(raw, '#')
+                elif not raw.lstrip().startswith('#'):
+                    line = _strip_line_comment(raw, '//')
+                line = self.subst_tmp(' '.join(line.split()))
+                if not line:
+                    continue
+                if not line.isascii():
+                    self.fail('non-ASCII text in emitted line %r' % line)
+                out.append(('act', 'KRaw', line))
+            return out
         for raw in text.split('\n'):
             indent = len(raw) - len(raw.lstrip(' '))
             if self.lang == 'py':
@@ -456,6 +471,18 @@ class Parser:
                 nodes.append(('jassert', parse_cond(self.subst_tmp(s[7:]))))
             elif head == 'do':
                 nodes.append(('set', 'do', self.subst_tmp(s[3:])))
+            elif self.raw and head in ('macro', 'ifuses', 'ifnuses', 'filter', 'call', 'block'):
+                # generic paired blocks of the declaration templates: kept as a one-branch decision on the opening statement
+                end = 'end' + head
+                body, term = self.parse_block(('else', end) if head in ('ifuses', 'ifnuses') else (end,))
+                self.pos += 1
+                els = []
+                if term == 'else':
+                    els, _ = self.parse_block((end,))
+                    self.pos += 1
+                nodes.append(('if', [(('atom', '<%s> %s' % (head, self.subst_tmp(s[len(head):].strip()))), body)], els))
+            elif self.raw and head in ('from', 'import', 'include', 'extends'):
+                nodes.append(('set', head, self.subst_tmp(s[len(head):].strip())))
             else:
                 self.fail('unsupported template statement {%% %s %%}' % s)
         if terminators:
@@ -489,6 +516,13 @@ def parse_template(src: str, lang: str, where: str) -> typing.List[typing.Tuple[
         macros.append((m.group(1), ' '.join(m.group(2).split()), body))
         i = p.pos + 1
     return macros
+
+
+def parse_raw_file(src: str, lang: str, where: str) -> list:
+    """declaration templates (type definitions): the whole file as one decision tree over verbatim lines"""
+    p = Parser(tokenize(src), lang, where, raw=True)
+    body, _ = p.parse_block(())
+    return body
 
 
 def dispatch_table(macros, any_name: str, where: str):
@@ -660,8 +694,21 @@ def render(prefix: str, base_import: bool = True) -> typing.Tuple[str, typing.Li
                 parts.append('Definition %s%s_%s_macros_default : list (string * string * list tnode) :=\n  [%s].\n' % (
                     prefix, tgt, dname, ';\n\n   '.join('(%s, %s,\n    %s)' % (q(n), q(a), coq_nodes(b, 4)) for n, a, b in dflt)))
             msgs.append('%s/%s: %d macros, %d dispatch entries' % (tgt, dname, len(macros), len(table)))
+    for tgt, files in DECL_FILES:
+        for fname in files:
+            rel = 'src/nunavut/lang/%s/templates/%s' % (tgt, fname)
+            body = parse_raw_file(gen.read_repo(rel), tgt, rel)
+            ident = '%s%s_decl_%s' % (prefix, tgt, re.sub(r'[^A-Za-z0-9]', '_', fname[:-3]).strip('_'))
+            parts.append('Definition %s : list tnode :=\n  %s.\n' % (ident, coq_nodes(body, 2)))
+            msgs.append('%s/%s: %d nodes' % (tgt, fname, len(body)))
     return '\n'.join(parts), msgs
 
+
+# the templates that DECLARE the generated data types (storage type per primitive, array member shapes, the dummy member of
+# field-less structures, the union tag member): C01's storage proviso and C04's object model rest on them
+DECL_FILES = [('c', ['definitions.j2']),
+              ('cpp', ['_composite_type.j2', '_fields.j2', '_fields_as_union.j2', '_fields_as_variant.j2']),
+              ('py', ['base.j2'])]
 
 IMPORTS = 'From Coq Require Import List String.\nFrom Verif Require Import TplTieBase.\nImport ListNotations.\nLocal Open Scope string_scope.\n\n'
 
